@@ -117,9 +117,9 @@ def _run(cmd, cwd=None, timeout=900, env=None):
         return 124, out + '\n[timeout]'
 
 
-def coq_sources():
+def coq_sources(gen=False):
     out = []
-    for d in ('Base', 'Model', 'Proofs', 'Props'):
+    for d in ('Base', 'Model', 'Proofs', 'Props') + (('GenProofs',) if gen else ()):
         dd = os.path.join(COQ, d)
         if os.path.isdir(dd):
             for f in sorted(os.listdir(dd)):
@@ -151,7 +151,7 @@ def coq_build(timeout=1500):
 def guard_scan():
     """No Admitted/admit/Axiom/Parameter/... anywhere in the development."""
     hits = []
-    for rel in coq_sources():
+    for rel in coq_sources(gen=True):
         txt = open(os.path.join(COQ, rel), encoding='utf8').read()
         txt = re.sub(r'\(\*.*?\*\)', lambda m: re.sub(r'[^\n]', ' ', m.group(0)), txt, flags=re.S)
         in_section = 0
@@ -189,6 +189,70 @@ def check_props(pid):
     ok = (rc == 0 and closed == n_pa and n_pa == len(theorems) and not axioms and n_pa > 0)
     return dict(obligations=len(theorems), discharged=(closed if rc == 0 else 0),
                 theorems=theorems, axioms=axioms, ok=ok, log=out[-4000:], rc=rc)
+
+
+# property -> translated units (harness/pytrans.py:UNITS) whose equivalence proofs belong to it
+GEN_UNITS = {'C01': ['C01_validate'], 'C04': ['C04_match'], 'C15': ['C15_limits'], 'C20': ['C20_dedupe']}
+
+
+def check_gen(pid):
+    """Translator tie: regenerate Gen_<unit>.v from $JEDI_REPO's source, compile it, then compile the
+    committed GenProofs/<unit>_Equiv.v (gen_f = model_f for all inputs) against it.
+    -> dict(units=[...], theorems=[...], discharged=n, ok=bool, why=str)"""
+    import pytrans
+    units = GEN_UNITS.get(pid, [])
+    res = dict(units=[], theorems=[], obligations=0, discharged=0, ok=True, why='')
+    if not units:
+        return res
+    tmpd = tempfile.mkdtemp(prefix='jvgen_')
+    try:
+        for u in units:
+            rec = dict(unit=u, source=pytrans.UNITS[u]['file'],
+                       defs=[f['name'] for f in pytrans.UNITS[u]['funcs']] + list(pytrans.UNITS[u].get('consts', [])))
+            res['units'].append(rec)
+            proof_src = open(os.path.join(COQ, 'GenProofs', u + '_Equiv.v'), encoding='utf8').read()
+            ths = re.findall(r'^\s*Theorem\s+(\w+)', proof_src, flags=re.M)
+            n_pa = len(re.findall(r'^\s*Print Assumptions\s+(\w+)', proof_src, flags=re.M))
+            res['theorems'] += ths
+            res['obligations'] += len(ths)
+            try:
+                text = pytrans.translate_unit(u, os.environ.get('JEDI_REPO', '/repo'))
+            except pytrans.Unsupported as e:
+                rec['status'] = 'translator refused: %s' % e
+                res['ok'] = False
+                res['why'] += '%s: the translator refuses the present source (%s); ' % (u, e)
+                continue
+            except (OSError, SyntaxError) as e:
+                rec['status'] = 'source unreadable: %r' % (e,)
+                res['ok'] = False
+                res['why'] += '%s: %r; ' % (u, e)
+                continue
+            hits = [w for w in GUARD_RE.findall(text)]
+            gf = os.path.join(tmpd, 'Gen_%s.v' % u)
+            with open(gf, 'w') as f:
+                f.write(text)
+            rec['generated_sha1'] = hashlib.sha1(text.encode('utf8')).hexdigest()
+            rc, out = _run(['coqc', '-Q', COQ, 'JV', '-Q', tmpd, 'JVGen', gf], cwd=tmpd, timeout=300)
+            if rc != 0 or hits:
+                rec['status'] = 'generated definition does not compile'
+                res['ok'] = False
+                res['why'] += '%s: generated file rejected by Coq: %s; ' % (u, out[-600:])
+                continue
+            pf = os.path.join(tmpd, u + '_Equiv.v')
+            shutil.copy(os.path.join(COQ, 'GenProofs', u + '_Equiv.v'), pf)
+            rc, out = _run(['coqc', '-Q', COQ, 'JV', '-Q', tmpd, 'JVGen', pf], cwd=tmpd, timeout=600)
+            closed = len(re.findall(r'Closed under the global context', out))
+            if rc == 0 and closed == n_pa == len(ths) and n_pa > 0:
+                rec['status'] = 'equivalent (%d theorems, closed)' % closed
+                res['discharged'] += closed
+            else:
+                rec['status'] = 'equivalence proof no longer checks'
+                res['ok'] = False
+                res['why'] += '%s: GenProofs/%s_Equiv.v fails against the definition generated from the present source: %s; ' % (
+                    u, u, out[-800:])
+    finally:
+        shutil.rmtree(tmpd, ignore_errors=True)
+    return res
 
 
 _EVAL_HDR = 'From Coq Require Import List NArith ZArith Bool String.\nImport ListNotations.\n'
@@ -377,6 +441,20 @@ class Ctx:
         elif not ok:
             # some other file of the development failed; it matters only if Props compiled (it did)
             self.cov['build_note'] = 'make reported errors in files this property does not depend on'
+        # second tie: definitions translated from the present source, proved equal to the model
+        try:
+            gen = check_gen(self.pid)
+        except Exception as e:        # fail closed
+            gen = dict(units=[], theorems=[], obligations=1, discharged=0, ok=False, why='translator tie crashed: %r' % (e,))
+        if gen['units'] or not gen['ok']:
+            self.cov['translated_units'] = gen['units']
+            self.cov['translation_theorems'] = gen['theorems']
+            self.cov['obligations'] += gen['obligations']
+            self.cov['discharged'] += 0 if hits else gen['discharged']
+            self.cov['checker_cmd'] += ' ; harness/pytrans.py regenerates Gen_<unit>.v from the source, coqc Gen_<unit>.v, coqc GenProofs/<unit>_Equiv.v'
+            if not gen['ok']:
+                # not yet a verdict: the streams of this check now search for a failing input (finish())
+                self.gen_broken = gen['why']
         return info
 
     # -- deviations
@@ -411,6 +489,12 @@ class Ctx:
         self.violations.append((path, nofail))
 
     def finish(self):
+        if getattr(self, 'gen_broken', None):
+            found = any(v and not v[1] for v in self.violations)
+            self.violation('obligation', dict(what='translator tie: the definition generated from the present source is no '
+                                              'longer proved equal to the model the theorems are about',
+                                              detail=self.gen_broken,
+                                              failing_input_found_by_the_streams=found), nofail=not found)
         for kid, hit in sorted(self.known_hits.items()):
             print('KNOWN-FINDING: property=%s %s: %s (%d occurrences this run)' % (
                 self.pid, kid, hit['k']['what'], hit['n']))
